@@ -172,6 +172,14 @@ Theorem C14_table_order_is_walk_order :
     Sub (nodes_of (keys_at F merged s l)) (preorder s).
 Proof. exact table_order_is_walk_order. Qed.
 
+(** the key the evaluator sorts a node row by IS the key of the first sentence ([Store.key]: what
+    [HasContext::order] returns for the node, the first component of a merged text) *)
+Theorem C14_view_key_is_store_key :
+  forall (F : sfacts) (merged : bool) (s : store), TreeInv s ->
+  forall v : vnode, In (KNode v) (vrows F merged s) ->
+    n_key (row_of F merged s (KNode v)) = Store.key s (vid v).
+Proof. exact row_key_live. Qed.
+
 Theorem C14_view_rows_follow_walk :
   forall (F : sfacts) (merged : bool) (s : store), Sub (nodes_of (vrows F merged s)) (preorder s).
 Proof. exact rows_sub_preorder. Qed.
@@ -375,6 +383,7 @@ Print Assumptions C14_edited_nodeset_canonical.
 Print Assumptions C14_edited_sort_by_key_is_by_position.
 Print Assumptions C14_edited_query_canonical.
 Print Assumptions C14_table_order_is_walk_order.
+Print Assumptions C14_view_key_is_store_key.
 Print Assumptions C14_view_rows_follow_walk.
 Print Assumptions C14_edited_path_query_refines_partial.
 Print Assumptions C14_edited_eval_refines_spec.
